@@ -1,7 +1,121 @@
 import SshAudit.Driver.WireOps
+import SshAudit.Driver.ReportOps
+import SshAudit.Driver.GexOps
+import SshAudit.Model.HostKey
+import SshAudit.Gen.KexDB
+import SshAudit.Gen.Tables
 namespace SshAudit.Driver
+open SshAudit SshAudit.HostKey
 
-/-- line-protocol operations of the HostKey model (stub; filled in when the model lands) -/
-def hostKeyOp (_op : String) (_args : List String) : Option J := none
+/-- the tables of /repo (translated on every run) as the model's configuration -/
+def hkCfg : Cfg :=
+  { types := Gen.hostKeyTypes, rsaFamily := Gen.rsaFamily, two2k := Gen.two2kWarning, smallEcc := Gen.smallEccWarning,
+    kexGroups := Gen.kexToDhgroupKeys }
+
+def jparsed (blob : Option Bytes) (p : Parsed) : J :=
+  .obj ([("type", .str p.keyType), ("nLen", .nat p.nLen), ("size", .nat (adjustKeySize p.nLen)), ("caType", .str p.caType),
+         ("caNLen", .nat p.caNLen), ("caSize", .nat (adjustKeySize p.caNLen))] ++
+        (match blob with | some b => [("blob", J.ofBytes b)] | none => []))
+
+/-- outcome map token: `name=c | name=x | name=n | name=r<hex>` joined by `;` (`_` = empty) -/
+def decOutcome (tok : String) : Option Outcome :=
+  if tok = "c" then some .connFail else if tok = "x" then some .raised else if tok = "n" then some .noReply
+  else if tok.startsWith "r" then (decBytes (let h := (tok.drop 1).toString; if h = "" then "-" else h)).map Outcome.reply else none
+
+def decOutcomes (tok : String) : Option (List (Str × Outcome)) :=
+  if tok = "_" then some [] else
+  (tok.splitOn ";").mapM fun (e : String) =>
+    match e.splitOn "=" with
+    | [n, o] => do let n ← decStr n; let o ← decOutcome o; pure (n, o)
+    | _ => none
+
+/-- a stateless scripted server: the outcome listed for the requested type; unlisted = the connection is closed before the reply -/
+def mapSrv (m : List (Str × Outcome)) : Unit → Str → Outcome × Unit := fun _ n =>
+  (match m.find? (·.1 = n) with | some (_, o) => o | none => .noReply, ())
+
+def jhkrec (e : Str × HKRec) : J := .arr [.str e.1, J.ofBytes e.2.raw, .nat e.2.info.size, .str e.2.info.caType, .nat e.2.info.caSize]
+def jfp (e : Str × Bytes) : J := .arr [.str e.1, J.ofBytes e.2]
+def jhalt : Option Halt → J
+  | none => .null | some .connFail => .str "connFail".toList | some .keyError => .str "keyError".toList
+
+def decRecs (tok : String) : Option (List (Str × HKRec)) :=
+  if tok = "_" then some [] else
+  (tok.splitOn ";").mapM fun (e : String) =>
+    match e.splitOn ":" with
+    | [n, raw, sz, ct, cs] => do
+      let n ← decStr n; let raw ← decBytes raw; let sz ← decNat sz; let ct ← decStr ct; let cs ← decNat cs
+      pure (n, ({ raw := raw, info := { size := sz, caType := ct, caSize := cs } } : HKRec))
+    | _ => none
+
+def jview (keys : List Str) (db : DB) (hk : List (Str × HKRec)) : List (String × J) :=
+  [("hostKeys", .arr (hk.map jhkrec)),
+   ("keyLines", .arr ((Report.algLines Gen.rsaFamily db Report.keyC keys (toReport hk) []).map jline)),
+   ("jsonNotes", .arr (keys.map fun n => .arr [.str n, jjn (Report.jsonNotes db Gen.failUnknown Report.keyC n)])),
+   ("jsonFields", .arr (keys.map fun n =>
+      let f := jsonKeyFields Gen.rsaFamily n hk
+      .arr [.str n, J.ofOpt J.nat f.1, J.ofOpt (fun (c : Str × Nat) => .arr [.str c.1, .nat c.2]) f.2])),
+   ("textFps", .arr ((textFps Gen.rsaFamily hk).map jfp)),
+   ("textShown", .arr (((textFps Gen.rsaFamily hk).filter (fun e => fpShown false e.1)).map jfp)),
+   ("jsonFps", .arr ((jsonFps Gen.rsaFamily hk).map jfp))]
+
+def decNats (tok : String) : Option (List Nat) := (tok.splitOn ",").mapM (fun (x : String) => x.toNat?)
+
+def hostKeyOp (op : String) (args : List String) : Option J :=
+  match op, args with
+  | "hk.parse", [h] => do
+    let b ← decBytes h
+    pure (jres (fun (r : Bytes × Parsed) => jparsed (some r.1) r.2) (recvReply b))
+  | "hk.blob", [h] => do
+    let b ← decBytes h
+    pure (jres (jparsed none) (parseHostKey b))
+  | "hk.getbytes", [h] => do
+    let b ← decBytes h
+    pure (jres (fun (r : Bytes × Nat × Bytes) => .arr [J.ofBytes r.1, .nat r.2.1, J.ofBytes r.2.2]) (getBytes b))
+  | "hk.comments", [n, c, sz, ct, cs] => do
+    let n ← decStr n; let c ← decBool c; let sz ← decNat sz; let ct ← decStr ct; let cs ← decNat cs
+    let fw := comments hkCfg n c sz ct cs
+    pure (jok (.arr [J.ofStrs fw.1, J.ofStrs fw.2]))
+  | "hk.extend", [d, f, w] => do
+    let d ← decDesc d; let f ← decStrs f; let w ← decStrs w
+    pure (jok (jdesc (extendDesc f w d)))
+  | "hk.audit", [k, key, o] => do
+    let kex ← decStrs k; let keys ← decStrs key; let m ← decOutcomes o
+    let st := run hkCfg (mapSrv m) () Gen.ssh2db kex keys
+    pure (jok (.obj ([("probes", J.ofStrs st.probes), ("halt", jhalt st.halt), ("parsed", J.ofStrs st.parsed),
+      ("descs", .arr (Gen.hostKeyTypes.map fun t => .arr [.str t.name, J.ofOpt (fun (e : Entry) => jdesc e.desc) (DBm.lookup st.db Report.keyC t.name)]))]
+      ++ jview keys st.db st.hostKeys)))
+  | "hk.view", [key, recs] => do
+    let keys ← decStrs key; let hk ← decRecs recs
+    pure (jok (.obj (jview keys Gen.ssh2db hk)))
+  | "hk.fpfmt", [a, b] => do
+    let a ← decBytes a; let b ← decBytes b
+    pure (jok (.arr [.str (sha256Text a), .str (md5Text b)]))
+  | "hk.adjust", [n] => do let n ← decNat n; pure (jok (.arr [.nat (adjustKeySize n)]))
+  | "hk.shownbits", [k] => do let k ← decNat k; pure (jok (.nat (Spec.shownBits k)))
+  | "hk.enc.rsa", [e, n] => do let e ← decNat e; let n ← decNat n; pure (jok (J.ofBytes (Spec.rsaBlob e n)))
+  | "hk.enc.ed25519", [pk] => do let pk ← decBytes pk; pure (jok (J.ofBytes (Spec.ed25519Blob pk)))
+  | "hk.enc.ed448", [pk] => do let pk ← decBytes pk; pure (jok (J.ofBytes (Spec.ed448Blob pk)))
+  | "hk.enc.ecdsa", [c, x, y] => do let c ← decStr c; let x ← decBytes x; let y ← decBytes y; pure (jok (J.ofBytes (Spec.ecdsaBlob c x y)))
+  | "hk.enc.reply", [b, f, sg] => do let b ← decBytes b; let f ← decBytes f; let sg ← decBytes sg; pure (jok (J.ofBytes (Spec.kexReply b f sg)))
+  | "hk.enc.cert", [kind, pub, ct, nonce, nums, keyId, princ, crit, ext, resv, sg, ca] => do
+    -- kind: `r` (pub = `e,n` decimal) or `e` (pub = public key hex); nums = `serial,validAfter,validBefore`
+    let ct ← decNat ct; let nonce ← decBytes nonce; let nums ← decNats nums
+    let keyId ← decBytes keyId; let princ ← decBytes princ; let crit ← decBytes crit; let ext ← decBytes ext
+    let resv ← decBytes resv; let sg ← decBytes sg; let ca ← decBytes ca
+    match nums with
+    | [serial, va, vb] =>
+      let f : Spec.CertFields := { nonce := nonce, serial := serial, keyId := keyId, principals := princ, validAfter := va, validBefore := vb,
+                                   crit := crit, ext := ext, reserved := resv, sig := sg }
+      if kind = "r" then do
+        let en ← decNats pub
+        match en with
+        | [e, n] => pure (jok (J.ofBytes (Spec.rsaCert e n ct f ca)))
+        | _ => none
+      else if kind = "e" then do
+        let pk ← decBytes pub
+        pure (jok (J.ofBytes (Spec.edCert pk ct f ca)))
+      else none
+    | _ => none
+  | _, _ => none
 
 end SshAudit.Driver
